@@ -387,6 +387,38 @@ pub fn families(ctx: &Ctx, c02: bool) -> Vec<Family> {
             }
         }));
     }
+    // bit ranges and list slices: every sequence of up to three pieces-or-separators inside the five
+    // places where a range list is read (the sign of a number may be the separator: `3-0` is lexed `3` `-0`)
+    fams.push(
+        Family::new("range-pieces", 5, move |ctx_i, _rng, emit| {
+            const CTX: [(&str, &str); 5] = [("defvar a = b{", "};"), ("def d { let f{", "} = 1; }"), ("foreach i = {", "} in def x#i;"), ("defvar s = l[", "];"), ("def e { bits<4> v = w{", "}; }")];
+            const PIECE: [&str; 14] = ["0", "3", "-3", "+3", "-0", "+0", "0x1F", "0b11", "...", "-", "+", ",", "x", "7-4"];
+            let (open, close) = CTX[ctx_i as usize % CTX.len()];
+            for a in 0..PIECE.len() {
+                for b in 0..=PIECE.len() {
+                    for c in 0..=PIECE.len() {
+                        if b == PIECE.len() && c != PIECE.len() {
+                            continue;
+                        }
+                        let mut mid = String::from(PIECE[a]);
+                        for k in [b, c] {
+                            if k < PIECE.len() {
+                                mid.push_str(PIECE[k]);
+                            }
+                        }
+                        // written tight, and with blanks between the pieces
+                        let spaced = [Some(a), (b < PIECE.len()).then_some(b), (c < PIECE.len()).then_some(c)].iter().flatten().map(|k| PIECE[*k]).collect::<Vec<_>>().join(" ");
+                        for m in [mid.clone(), spaced] {
+                            if !emit(text_case(format!("{open}{m}{close}"))) {
+                                return;
+                            }
+                        }
+                    }
+                }
+            }
+        })
+        .exhaustive(),
+    );
     // deep nesting and long repetitions: losslessness (C01) and totality (C02) both quantify over them
     {
         fams.push(Family::new("deep-nesting", tier.pick(16, 64), move |_c, rng, emit| {
